@@ -1093,6 +1093,7 @@ void runC20(Ctx &c)
             c.nontrivial(mix64(hashProblem(p), hashDoubles(&dt, 1)));
             std::string key = gkey(p, "arc_length");
             // true arc length and integral of |acc| by composite Gauss-Legendre between consecutive knots/samples
+            LD vmax = 0;
             auto integrate = [&](double lo, double hi, LD &Ltrue, LD &Aint)
             {
                 static const LD gx[4] = {0.1834346424956498049394761L, 0.5255324099163289858177390L, 0.7966664774136267395915539L, 0.9602898564975362316835609L};
@@ -1105,7 +1106,10 @@ void runC20(Ctx &c)
                 cuts.push_back(hi);
                 for (size_t q = 0; q + 1 < cuts.size(); ++q)
                 {
-                    const int sub = 8;
+                    // speed is only Lipschitz where the velocity vanishes (always the case somewhere in 1-D): resolve such
+                    // kinks on a partition four times finer than the finest step judged below
+                    const double fine = std::max((hi - lo) / 40000.0, dt / 64.0);
+                    const int sub = std::max(8, (int)std::ceil((cuts[q + 1] - cuts[q]) / fine));
                     for (int s2 = 0; s2 < sub; ++s2)
                     {
                         LD l = (LD)cuts[q] + ((LD)cuts[q + 1] - (LD)cuts[q]) * s2 / sub, h = (LD)cuts[q] + ((LD)cuts[q + 1] - (LD)cuts[q]) * (s2 + 1) / sub;
@@ -1123,6 +1127,8 @@ void runC20(Ctx &c)
                                     v2 += v * v;
                                     a2 += ac * ac;
                                 }
+                                if (sqrtl(v2) > vmax)
+                                    vmax = sqrtl(v2);
                                 Ltrue += gw[g] * sqrtl(v2) * (h - l) / 2;
                                 Aint += gw[g] * sqrtl(a2) * (h - l) / 2;
                             }
@@ -1141,8 +1147,12 @@ void runC20(Ctx &c)
                 double L = tr->length(a, b, d);
                 double err = std::fabs((double)((LD)L - Ltrue));
                 // bound: step * integral |a|, plus quadrature slack (speed is only Lipschitz near zeros of v)
-                double bound = d * (double)Aint * 1.0000001 + 1e-9 * ((double)Ltrue + 1e-12) + 1e-6 * d * (double)Aint;
-                double slack = 2e-4 * (double)Ltrue * 0 + bound;
+                // the sequence may legitimately stop up to 1e-6 short of the end (its own contract): that piece of the
+                // curve, at most 1e-6 * max speed long, is not part of the sum
+                double bound = d * (double)Aint * 1.000001 + 1e-9 * ((double)Ltrue + 1e-12) + 1.5e-6 * (double)vmax * 1.05;
+                double slack = bound;
+                if (getenv("VF_DEBUG"))
+                    fprintf(stderr, "  level=%d d=%.6g L=%.15g Ltrue=%.15Lg err=%.6g Aint=%.6Lg bound=%.6g span=%.6g\n", level, d, L, Ltrue, err, Aint, bound, span);
                 c.check("C20.length_within_step_times_integral_of_acc", slack > 0 ? err / slack : (err == 0 ? 0 : INFINITY), 1.0, key, "level=" + std::to_string(level));
                 prevErr = err;
                 c.event("arc_length_checks");
